@@ -11,10 +11,13 @@ import (
 	"os/exec"
 	"path/filepath"
 	"runtime"
+	"runtime/debug"
+	"runtime/metrics"
 	"sort"
 	"strconv"
 	"strings"
 	"sync"
+	"sync/atomic"
 	"time"
 )
 
@@ -366,6 +369,41 @@ func workerMain(d *Driver, tier string, seed int64, shard, only string) int {
 	}
 	enc.Encode(map[string]any{"load_s": c.w.loadS, "init_steps": c.w.nInit})
 	items := interleave(d.Items(c))
+	// memory watchdog: a soft limit cuts the running exploration (reported as inconclusive); past the hard limit
+	// the worker reports the current and the remaining items as not explored and exits cleanly instead of
+	// being killed by the kernel (which would make the whole check count as broken)
+	var outMu sync.Mutex
+	var curIdx atomic.Int64
+	curIdx.Store(-1)
+	go func() {
+		sample := []metrics.Sample{{Name: "/memory/classes/heap/objects:bytes"}}
+		soft, hard := uint64(2500<<20), uint64(3500<<20)
+		if v, err := strconv.Atoi(os.Getenv("VF_MEMSOFT_MB")); err == nil && v > 0 {
+			soft, hard = uint64(v)<<20, uint64(v+v/2)<<20
+		}
+		for {
+			time.Sleep(200 * time.Millisecond)
+			metrics.Read(sample)
+			used := sample[0].Value.Uint64()
+			memExceeded.Store(used > soft)
+			if used > hard {
+				outMu.Lock()
+				ci := int(curIdx.Load())
+				for i, it := range items {
+					if i%sn != si || i < ci || (only != "" && !strings.Contains(it.ID, only)) {
+						continue
+					}
+					msg := "not explored: the worker's memory budget was exhausted by an earlier item"
+					if i == ci {
+						msg = fmt.Sprintf("memory budget exceeded (%d MiB): exploration abandoned", used>>20)
+					}
+					enc.Encode(&ItemResult{ID: it.ID, Obl: 1, Inconcl: []string{msg}})
+				}
+				out.Flush()
+				os.Exit(0)
+			}
+		}
+	}()
 	// cost-balanced round robin: items are assigned by index
 	for i, it := range items {
 		if i%sn != si {
@@ -387,12 +425,23 @@ func workerMain(d *Driver, tier string, seed int64, shard, only string) int {
 				fh.Close()
 			}
 		}
+		curIdx.Store(int64(i))
 		res := c.runItem(it)
+		outMu.Lock()
 		enc.Encode(res)
 		out.Flush()
+		outMu.Unlock()
+		if memExceeded.Load() {
+			resetTerms()
+			c.e().solver.Restart()
+			debug.FreeOSMemory()
+		}
 	}
+	outMu.Lock() // (held to the end: the watchdog must not write after the last result)
 	return 0
 }
+
+var memExceeded atomic.Bool
 
 func (c *Ctx) runItem(it Item) *ItemResult {
 	e := c.e()
@@ -434,8 +483,10 @@ func (c *Ctx) runItem(it Item) *ItemResult {
 		if msgLevel {
 			e.symLoopLimit = 3
 		}
+		e.abortMsg = ""
 		it.Run(c)
 		e.symLoopLimit = 0
+		e.abortMsg = ""
 		// fallback: the code loops on a symbolic text length (or the exploration ran out of budget): decide the
 		// item for concrete text lengths instead (content stays symbolic) - a reduced bound, recorded as such
 		needFallback := false
